@@ -281,7 +281,7 @@ def check_history(hist, res, overlap=None, ch=None):
             op_in_progress = [full[i][0] for i, (s, e) in enumerate(marks) if s is not None and s < k and (e is None or k < e)]
             sig = dict(sig, during=','.join(op_in_progress) or 'between-operations')
             res.violation(sig, 'history %r crash after effect %d/%d (%s): %s' % (full, k, n, fs.log[k - 1][0] if k else 'start', msg),
-                          {'hist': [list(o) for o in hist], 'overlap': [[list(o) for o in overlap[0]], list(overlap[1]), list(overlap[2])] if overlap else None,
+                          {'hist': [list(o) for o in hist] if hist else None, 'overlap': [[list(o) for o in overlap[0]], list(overlap[1]), list(overlap[2])] if overlap else None,
                            'choices': ch.choices if ch else None, 'k': k})
     res.states += n + 1
     res.transitions += n
@@ -415,6 +415,43 @@ def check_queue_run(outcomes, res, messages=1):
     return n
 
 
+RESTART_KINDS = ('recipient-stranded', 'known-message-neither-scheduled-nor-in-flight', 'removed-with-outstanding-recipients',
+                 'due-but-not-dispatched', 'no-wakeup-before-due')
+
+
+def restart_cfg(cfg):
+    return dict(backend='disk', backoff='r0x2', n=1, messages=0, prestored=4, prestored_due=0.0, store_pool=cfg['store_pool'], chunk_size=48,
+                slow_ops=cfg['slow'], menu=dict(per_recipient=False, boom=False, reply_ok=False), max_steps=2000)
+
+
+def check_restart(cfg, ch, res):
+    """a real Queue started over a disk directory holding 4 due messages must attempt every one of them (and keep
+    retrying the ones that fail transiently) whatever the pool bound and the order of storage completions"""
+    from worlds.queue_world import QueueWorld
+    wcfg = restart_cfg(cfg)
+    qw = QueueWorld(ch, wcfg)
+    obs = qw.run()
+    res.evaluations += 1
+    res.outcome(obs)
+    if any(a['attempts'] > 0 for a in qw.attempts):
+        res.interesting(('restart', obs))
+    never = [qid for qid, led in sorted(qw.ledger.items()) if not led['bounce'] and not any(a['qid'] == qid for a in qw.attempts)]
+    viols = [(k, d_) for k, d_ in qw.violations if k in RESTART_KINDS]
+    if never:
+        viols.insert(0, ('never-attempted', 'stored message(s) %r were never attempted by the restarted queue' % (never,)))
+    seen = set()
+    for kind, detail in viols:
+        if kind in seen:
+            continue
+        seen.add(kind)
+        res.violation({'kind': 'not-resumed', 'during': 'restart', 'how': kind, 'store_pool': str(cfg['store_pool']),
+                       'blocked_at': getattr(qw, 'pool_blocked_at', '')},
+                      'restart with store_pool=%r slow=%r: %s; attempts=%r' % (cfg['store_pool'], cfg['slow'], detail,
+                                                                              [(a['qid'][-2:], a['outcome']) for a in qw.attempts]),
+                      {'restart': {'store_pool': cfg['store_pool'], 'slow': cfg['slow']}, 'choices': ch.choices, 'hist': None, 'overlap': None, 'k': 0})
+    return obs
+
+
 def configs(tier, seed):
     H = 4 if tier == 'quick' else 5
     hs = list(histories(H))
@@ -428,7 +465,16 @@ def configs(tier, seed):
         opsB = [('write', 'B'), ('inc', 'B'), ('dlv', 'B'), ('rm', 'B')]
         for a in opsA:
             for b in opsB:
-                cfgs.append({'mode': 'overlap', 'a': list(a), 'b': list(b)})
+                cfgs.append({'mode': 'overlap', 'a': list(a), 'b': list(b), 'd': 2})
+        cfgs.append({'mode': 'overlap', 'a': ['write', 'A'], 'b': ['write', 'B'], 'd': 2})
+    else:
+        # two operations on different messages overlapping in time (aio completions interleaved), one deviation
+        for a, b in ((('write', 'A'), ('write', 'B')), (('inc', 'A'), ('inc', 'B')), (('ts', 'A'), ('write', 'B')), (('dlv', 'A'), ('rm', 'B'))):
+            cfgs.append({'mode': 'overlap', 'a': list(a), 'b': list(b), 'd': 1})
+    # resumption by a real Queue restarted over 4 due messages: bounded/unbounded store pool, lazy listing, slow reads
+    for sp in (None, 1, 2):
+        for slow in (['load-step'], ['load-step', 'get'], ['load-step', 'set_timestamp']):
+            cfgs.append({'mode': 'restart', 'store_pool': sp, 'slow': slow, 'd': 1 if tier == 'quick' else 3})
     return cfgs
 
 
@@ -452,14 +498,21 @@ def run_config(cfg, tier, seed):
                     res.violation({'kind': 'memfs-conformance'}, 'history %r: %s' % (h, err), {'hist': [list(o) for o in h], 'overlap': None, 'choices': None, 'k': -1})
             if i % 97 == cfg['k']:
                 res.sample({'history': h, 'effect_log': [e for e, _ in fs.log]})
+    elif cfg['mode'] == 'restart':
+        st = explore(lambda ch: check_restart(cfg, ch, res), d=cfg['d'], dd=1, merge=True, max_exec=20000)
+        res.count('restart_schedules', st.executions)
+        res.states += len(st.states)
+        if st.cap_hit:
+            res.caps.append(st.cap_hit)
+        res.sample({'restart': {'store_pool': cfg['store_pool'], 'slow': cfg['slow']}, 'schedules': st.executions})
     else:
         a, b = tuple(cfg['a']), tuple(cfg['b'])
-        pre = [('write', 'A')] + ([('write', 'B')] if b[0] != 'write' else [])
+        pre = ([('write', 'A')] if a[0] != 'write' else []) + ([('write', 'B')] if b[0] != 'write' else [])
 
         def run(ch):
             check_history(None, res, overlap=(pre, a, b), ch=ch)
             return tuple(ch.choices)
-        st = explore(run, d=2, dd=None, merge=False, max_exec=400)
+        st = explore(run, d=cfg.get('d', 2), dd=None, merge=False, max_exec=400)
         res.count('overlap_schedules', st.executions)
         if st.cap_hit:
             res.caps.append(st.cap_hit)
@@ -480,6 +533,11 @@ def vacuity(counters, tier):
 
 def replay(rep):
     res = Result()
+    if rep.get('restart'):
+        check_restart(rep['restart'], Chooser(rep['choices']), res)
+        if res.violations:
+            return True, res.violations[0]['message']
+        return False, 'the restarted queue attempted every stored message'
     if rep.get('queue_run'):
         check_queue_run(rep['queue_run'], res)
         if res.violations:
